@@ -51,10 +51,20 @@ impl<T: Write + Read + Seek> PagedWriter<T> {
         // Make sure we wrote any current (partial) page before seeking
         self.flush().write_err("Failed to flush before seeking")?;
 
+        // Remember the current position to restore it after looking up the file end.
+        // Otherwise a rejected seek would leave the underlying writer at the file end
+        // while the page buffer still belongs to the old position.
+        let current = self
+            .writer
+            .stream_position()
+            .write_err("Failed to get current position")?;
         let end = self
             .writer
             .seek(SeekFrom::End(0))
             .write_err("Failed to seek to file end")?;
+        self.writer
+            .seek(SeekFrom::Start(current))
+            .write_err("Failed to seek back to previous position")?;
         if pos > end {
             Error::invalid("Cannot seek after end of file")?
         }
